@@ -101,6 +101,18 @@ def lastK {α} (l : List α) (k : Int) : List α :=
 def sliceFrom {α} (l : List α) (lo : Int) : List α :=
   if 0 ≤ lo then l.drop lo.toNat else l.drop (l.length - (-lo).toNat)
 
+/-- `np.searchsorted(a, x)` (side 'left') on an ascending list: the number of elements `< x`. -/
+def searchsortedLeft (l : List Rat) (x : Rat) : Int := (((l.filter (· < x)).length : Nat) : Int)
+
+/-- Python's `lst[i]` for an `int` `i`: negative indices count from the end, out of range is an `IndexError`. -/
+def getIdx {α} (l : List α) (i : Int) : Except AmpyErr α :=
+  let j := if i < 0 then i + (l.length : Int) else i
+  if 0 ≤ j then
+    match l[j.toNat]? with
+    | some v => .ok v
+    | none => .error (.other "IndexError")
+  else .error (.other "IndexError")
+
 /-- Python's `int(x)` for an exact rational (truncation toward zero). -/
 def truncRat (r : Rat) : Int := if 0 ≤ r then r.floor else r.ceil
 
